@@ -38,31 +38,69 @@ func init() {
 	}
 }
 
-// findRangeGenerators: functions of the fsm package with a closure that takes a yield callback
-// and opens a Pebble iterator: the lazy range generator (today: iterate and its closure).
+// findRangeGenerators: functions of the fsm package that take a yield callback and open a
+// Pebble iterator: the lazy range generator. Today that is the closure iterate returns; a named
+// function the closure hands its yield to is recognised the same way.
 func findRangeGenerators(w *World) (outer []*ssa.Function, gens []*ssa.Function) {
 	sp := w.SSAPkg(fsmRel)
 	if sp == nil {
 		return
 	}
 	for _, fn := range w.ModFuncs() {
-		if fn.Parent() == nil || fn.Package() != sp && (fn.Parent().Package() != sp) {
+		if !isFsmFunc(fn) || fn.Blocks == nil || isGenerated(fn) {
 			continue
 		}
-		if len(fn.Params) != 1 {
-			continue
-		}
-		sig, ok := fn.Params[0].Type().Underlying().(*types.Signature)
-		if !ok || sig.Results().Len() != 1 || !types.Identical(sig.Results().At(0).Type(), types.Typ[types.Bool]) {
+		if yieldParamOf(fn) == nil {
 			continue
 		}
 		if len(callsIn(fn, false, pebbleNewIter...)) == 0 {
 			continue
 		}
 		gens = append(gens, fn)
-		outer = append(outer, fn.Parent())
+		if fn.Parent() != nil {
+			outer = append(outer, fn.Parent())
+		} else {
+			outer = append(outer, fn)
+		}
 	}
 	return
+}
+
+// yieldParamOf: the parameter of type func(*ResponseOp_Range) bool.
+func yieldParamOf(fn *ssa.Function) *ssa.Parameter {
+	for _, p := range fn.Params {
+		sig, ok := p.Type().Underlying().(*types.Signature)
+		if !ok || sig.Results().Len() != 1 || sig.Params().Len() != 1 || !types.Identical(sig.Results().At(0).Type(), types.Typ[types.Bool]) {
+			continue
+		}
+		if isRangeResp(sig.Params().At(0).Type()) {
+			return p
+		}
+	}
+	return nil
+}
+
+// paramAliases: for a named function with exactly one (static, synchronous) call site in the
+// module, its parameters rendered as the arguments of that call site - so that a rule about
+// "the request's Limit" or "the bounds builder's result" reads the same whether the code sits
+// in the closure or in a helper the closure calls.
+func paramAliases(w *World, fn *ssa.Function) map[ssa.Value]string {
+	out := map[ssa.Value]string{}
+	if fn.Parent() != nil {
+		return out
+	}
+	callers := w.CallersOf(fn)
+	if len(callers) != 1 {
+		return out
+	}
+	c, ok := callers[0].(*ssa.Call)
+	if !ok || StaticCallee(&c.Call) != fn || len(c.Call.Args) != len(fn.Params) {
+		return out
+	}
+	for i, p := range fn.Params {
+		out[p] = Expr(c.Call.Args[i])
+	}
+	return out
 }
 
 type itPos uint8
@@ -127,7 +165,7 @@ func checkC09(w *World, r *Report) {
 
 func c09Generator(w *World, obA, obB, obC *Ob, outer, gen *ssa.Function) {
 	gname := FnName(gen)
-	yieldParam := gen.Params[0]
+	yieldParam := ssa.Value(yieldParamOf(gen))
 	isYield := func(in ssa.Instruction) bool {
 		c := plainCall(in)
 		return c != nil && c.Value == yieldParam
@@ -345,7 +383,7 @@ func c09Generator(w *World, obA, obB, obC *Ob, outer, gen *ssa.Function) {
 			consumes = append(consumes, in)
 		}
 	})
-	ctx := &ExprCtx{Alias: map[ssa.Value]string{}}
+	ctx := &ExprCtx{Alias: paramAliases(w, gen)}
 	// counter: int phi with edges {0, phi+1}
 	var counter *ssa.Phi
 	eachInstr(gen, func(in ssa.Instruction) {
